@@ -39,6 +39,70 @@ Proof.
   unfold get_instance_call in Hx. destruct (pid_instance (n_pid n)); [destruct Hx|]. destruct Hx as [<-|[]]. reflexivity.
 Qed.
 
+(* ---------- fleet_done: only what follows the accepted fleet request counts ---------- *)
+Lemma fleet_done_prefix pfx c : no_increase pfx -> fleet_done (pfx ++ c) = fleet_done c.
+Proof.
+  induction pfx as [|p pfx IH]; intros H; [reflexivity|].
+  assert (Hp : is_cloud_increase p = false) by (apply H; left; reflexivity).
+  assert (Hr : no_increase pfx) by (intros x Hx; apply H; right; exact Hx).
+  cbn [app fleet_done]. destruct p as [k|a]; [apply IH; exact Hr|].
+  destruct a; try (apply IH; exact Hr); simpl in Hp; discriminate.
+Qed.
+Lemma no_increase_fleet_done calls : no_increase calls -> fleet_done calls = false.
+Proof. intros H. rewrite <- (app_nil_r calls). rewrite fleet_done_prefix by exact H. reflexivity. Qed.
+Lemma no_increase_done calls : no_increase calls -> increase_done calls = false.
+Proof. intros H. unfold increase_done. rewrite (proj1 (no_increase_set_desired _ H)), (no_increase_fleet_done _ H). reflexivity. Qed.
+Lemma increase_done_prefix pfx c : no_increase pfx -> increase_done (pfx ++ c) = increase_done c.
+Proof.
+  intros H. unfold increase_done. rewrite (fleet_done_prefix _ _ H). f_equal.
+  unfold set_desired_ok. rewrite existsb_app. fold (set_desired_ok pfx). rewrite (proj1 (no_increase_set_desired _ H)). reflexivity.
+Qed.
+
+Lemma refused_liftA l : existsb is_attach_refused (liftA l) = attach_failed l.
+Proof. unfold liftA, attach_failed. induction l as [|c l IH]; simpl; [reflexivity|]. rewrite IH. destruct c; reflexivity. Qed.
+Lemma only_term_no_attach tc : only_term tc -> existsb is_attach (liftA tc) = false.
+Proof. induction 1 as [|c tc Hc _ IH]; [reflexivity|]. destruct c; try contradiction. simpl. exact IH. Qed.
+Lemma only_term_no_fleet tc : only_term tc -> fleet_done (liftA tc) = false.
+Proof. induction 1 as [|c tc Hc _ IH]; [reflexivity|]. destruct c; try contradiction. simpl. exact IH. Qed.
+
+(* the fleet branch reports success exactly when the journal shows a request accepted and attached in full *)
+Lemma os_body_not_done g d vpc o insts : snd (fst (os_body g d vpc o insts)) <> IncOk ->
+  fleet_done (liftA (fst (fst (os_body g d vpc o insts)))) = false.
+Proof.
+  unfold os_body. cbv zeta.
+  destruct (negb _).
+  { pose proof (cleanup_spec g [ADescribeAsg (a_name g) true; fleet_call g d vpc true] (concat insts) o ENotReady) as H.
+    destruct (cleanup _ _ _ _ _) as [[c r] g']. destruct H as [tc H]; [discriminate|]. simpl. intros _.
+    destruct H as (-> & _ & _ & _ & _ & _ & Ht & _). unfold fleet_call. simpl. rewrite (only_term_no_attach _ Ht). reflexivity. }
+  pose proof (attach_loop_spec (S (length (concat insts))) (a_name g) (concat insts) 0 (ao_attach_fail o) ltac:(lia)) as Ha.
+  destruct (attach_loop _ _ _ _ _) as [ac r]. destruct Ha as (_ & _ & _ & Ha). destruct r.
+  - simpl. intros E. contradiction E. reflexivity.
+  - destruct Ha as [_ Hf].
+    pose proof (cleanup_spec g ([ADescribeAsg (a_name g) true; fleet_call g d vpc true] ++ ac) orphans o EAttach) as H.
+    destruct (cleanup _ _ _ _ _) as [[c r] g']. destruct H as [tc H]; [discriminate|]. simpl. intros _.
+    destruct H as (-> & _). unfold fleet_call. simpl. unfold liftA. rewrite map_app. fold (liftA ac) (liftA tc).
+    rewrite !existsb_app, refused_liftA, Hf. simpl. apply andb_false_r.
+  - contradiction.
+Qed.
+
+Lemma aws_increase_not_done g d o calls r g' : aws_increase g d o = (calls, r, g') -> r <> IncOk ->
+  fleet_done (liftA calls) = false.
+Proof.
+  unfold aws_increase. destruct (d <=? 0); [intros H; inversion H; subst; reflexivity|].
+  destruct (a_max g <? a_desired g + d); [intros H; inversion H; subst; reflexivity|].
+  destruct (fleet_mode g).
+  - unfold one_shot. destruct (ao_describe o) as [| |vpc]; try (intros H; inversion H; subst; reflexivity).
+    destruct vpc as [|v0 vpc']; try (intros H; inversion H; subst; reflexivity).
+    destruct (ao_fleet o) as [|insts nerr]; try (intros H; inversion H; subst; reflexivity).
+    assert (Hb : forall insts, os_body g d (v0 :: vpc') o insts = (calls, r, g') -> r <> IncOk -> fleet_done (liftA calls) = false).
+    { intros i H Hr. pose proof (os_body_not_done g d (v0 :: vpc') o i) as Hx. rewrite H in Hx. apply Hx. exact Hr. }
+    destruct insts as [|i0 is']; [destruct nerr as [|n']|].
+    + apply (Hb []).
+    + intros H; inversion H; subst; reflexivity.
+    + apply (Hb (i0 :: is')).
+  - destruct (ao_setdesired_fail o); intros H; inversion H; subst; reflexivity.
+Qed.
+
 (* ---------- aws_increase: an accepted increase shows in the journal ---------- *)
 Definition acall_accepted (c : acall) : bool :=
   match c with ASetDesired _ _ _ true => true | ACreateFleet _ _ _ _ _ _ _ true => true | _ => false end.
@@ -91,14 +155,81 @@ Qed.
 Lemma set_desired_ok_liftA l : set_desired_ok (liftA l) = existsb (fun c => match c with ASetDesired _ _ _ true => true | _ => false end) l.
 Proof. unfold set_desired_ok, liftA. induction l as [|c l IH]; simpl; [reflexivity|]. rewrite IH. destruct c; reflexivity. Qed.
 
+Lemma fleet_done_accepted calls : fleet_done calls = true -> increase_accepted calls = true.
+Proof.
+  unfold increase_accepted. induction calls as [|c calls IH]; [discriminate|]. cbn [fleet_done existsb].
+  destruct c as [k|a]; [exact IH|].
+  destruct a as [? ? ? ok1|? ? ?|? ?|? ? ? ? ? ? ? okf|? ? ?|? ?|? ?]; try exact IH.
+  - destruct ok1; [intros _; reflexivity | exact IH].
+  - destruct okf; [intros _; reflexivity | exact IH].
+Qed.
+Lemma increase_done_accepted calls : increase_done calls = true -> increase_accepted calls = true.
+Proof.
+  unfold increase_done. intros H. apply orb_prop in H. destruct H as [H|H]; [|apply fleet_done_accepted; exact H].
+  unfold set_desired_ok in H. unfold increase_accepted. apply existsb_exists in H. destruct H as [c [Hc H]].
+  apply existsb_exists. exists c. split; [exact Hc|]. destruct c as [|[? ? ? ok1|? ? ?|? ?|? ? ? ? ? ? ? okf|? ? ?|? ?|? ?]]; try discriminate.
+  destruct ok1; [reflexivity | discriminate].
+Qed.
+
+Lemma attach_loop_nonempty fuel g inst k fails : (0 < fuel)%nat -> fst (attach_loop fuel g inst k fails) <> [].
+Proof.
+  destruct fuel as [|f]; [lia|]. intros _. cbn [attach_loop].
+  destruct (Nat.ltb attach_batch (length inst)); destruct (mem_nat k fails); try (simpl; discriminate).
+  destruct (attach_loop f g (skipn attach_batch inst) (S k) fails). simpl. discriminate.
+Qed.
+Lemma only_attach_exists ac : only_attach ac -> ac <> [] -> existsb is_attach (liftA ac) = true.
+Proof. intros H Hn. destruct H as [|c ac Hc _]; [contradiction Hn; reflexivity|]. destruct c; try contradiction. reflexivity. Qed.
+
+Lemma os_body_incok_done g d vpc o insts : snd (fst (os_body g d vpc o insts)) = IncOk ->
+  fleet_done (liftA (fst (fst (os_body g d vpc o insts)))) = true.
+Proof.
+  unfold os_body. cbv zeta.
+  destruct (negb _).
+  { pose proof (cleanup_spec g [ADescribeAsg (a_name g) true; fleet_call g d vpc true] (concat insts) o ENotReady) as H.
+    destruct (cleanup _ _ _ _ _) as [[c r] g']. destruct H as [tc H]; [discriminate|]. simpl. intros E. destruct H as (_ & _ & _ & _ & _ & _ & _ & H & _). congruence. }
+  pose proof (attach_loop_spec (S (length (concat insts))) (a_name g) (concat insts) 0 (ao_attach_fail o) ltac:(lia)) as Ha.
+  pose proof (attach_loop_nonempty (S (length (concat insts))) (a_name g) (concat insts) 0 (ao_attach_fail o) ltac:(lia)) as Hn.
+  destruct (attach_loop _ _ _ _ _) as [ac r]. destruct Ha as (Ho & _ & _ & Ha). destruct r.
+  - intros _. destruct Ha as [_ Hf]. simpl. unfold fleet_call. simpl.
+    rewrite (only_attach_exists _ Ho Hn), refused_liftA, Hf. reflexivity.
+  - pose proof (cleanup_spec g ([ADescribeAsg (a_name g) true; fleet_call g d vpc true] ++ ac) orphans o EAttach) as H.
+    destruct (cleanup _ _ _ _ _) as [[c r] g']. destruct H as [tc H]; [discriminate|]. simpl. intros E. destruct H as (_ & _ & _ & _ & _ & _ & _ & H & _). congruence.
+  - simpl. discriminate.
+Qed.
+
+Lemma aws_increase_incok_done g d o calls g' : aws_increase g d o = (calls, IncOk, g') -> increase_done (liftA calls) = true.
+Proof.
+  unfold aws_increase. destruct (d <=? 0); [discriminate|]. destruct (a_max g <? a_desired g + d); [discriminate|].
+  destruct (fleet_mode g).
+  - unfold one_shot. destruct (ao_describe o) as [| |vpc]; try discriminate.
+    destruct vpc as [|v0 vpc']; try discriminate. destruct (ao_fleet o) as [|insts nerr]; try discriminate.
+    assert (Hb : forall insts, os_body g d (v0 :: vpc') o insts = (calls, IncOk, g') -> increase_done (liftA calls) = true).
+    { intros i H. pose proof (os_body_incok_done g d (v0 :: vpc') o i) as Hx. rewrite H in Hx. simpl in Hx. unfold increase_done. rewrite Hx by reflexivity. apply orb_true_r. }
+    destruct insts as [|i0 is']; [destruct nerr as [|n']|].
+    + apply (Hb []).
+    + discriminate.
+    + apply (Hb (i0 :: is')).
+  - destruct (ao_setdesired_fail o); intros H; inversion H; subst. reflexivity.
+Qed.
+
+Lemma aws_increase_done_iff g d o calls r g' :
+  aws_increase g d o = (calls, r, g') -> (r = IncOk <-> increase_done (liftA calls) = true).
+Proof.
+  intros H. split.
+  - intros ->. exact (aws_increase_incok_done _ _ _ _ _ H).
+  - intros Hd. destruct r as [|e|]; [reflexivity| |]; exfalso; unfold increase_done in Hd;
+      rewrite (aws_increase_not_done _ _ _ _ _ _ H) in Hd by discriminate; rewrite orb_false_r, set_desired_ok_liftA in Hd;
+      pose proof (aws_increase_setdesired _ _ _ _ _ _ H Hd); discriminate.
+Qed.
+
 (* ---------- scale_up: what happens to the lock ---------- *)
 Lemma with_tracker_lock st t : g_lock (with_tracker st t) = g_lock st. Proof. reflexivity. Qed.
 Lemma with_last_out_lock st t : g_lock (with_last_out st t) = g_lock st. Proof. reflexivity. Qed.
 Lemma with_cache_lock st c : g_lock (with_cache st c) = g_lock st. Proof. reflexivity. Qed.
 
 Definition lock_outcome (now : Z) (dry : bool) (pre post : lock) (calls : list call) : Prop :=
-  (post = pre /\ set_desired_ok calls = false)
-  \/ (exists n, post = lock_arm now n /\ (dry = true \/ increase_accepted calls = true)).
+  (post = pre /\ increase_done calls = false)
+  \/ (exists n, post = lock_arm now n /\ (dry = true \/ increase_done calls = true)).
 
 Lemma scale_up_lock e o mx dry st a tainted want :
   let r := scale_up e o mx dry st a tainted want in
@@ -107,17 +238,20 @@ Proof.
   unfold scale_up.
   destruct (match tainted with [] => _ | _ => _ end) as [[ucalls ucount] tr].
   pose proof (no_increase_set_desired _ (liftK_no_increase ucalls)) as [HK1 HK2].
+  pose proof (no_increase_done _ (liftK_no_increase ucalls)) as HK3.
   destruct (0 <? want - ucount); [|left; simpl; auto].
   destruct a as [g|]; [|left; simpl; auto].
   destruct (nodes_to_add _ _ _ <=? 0); [left; simpl; auto|].
   destruct dry; [right; simpl; eexists; split; [reflexivity | left; reflexivity]|].
   destruct (aws_increase g _ (e_aorc e)) as [[ac r] g'] eqn:Ei.
   destruct r.
-  - right. simpl. eexists. split; [reflexivity|]. right. rewrite increase_accepted_app, increase_accepted_liftA.
-    rewrite (aws_increase_incok _ _ _ _ _ Ei). apply orb_true_r.
-  - left. simpl. split; [reflexivity|]. rewrite set_desired_ok_app, HK1, set_desired_ok_liftA. simpl.
+  - right. simpl. eexists. split; [reflexivity|]. right. rewrite (increase_done_prefix _ _ (liftK_no_increase ucalls)).
+    exact (aws_increase_incok_done _ _ _ _ _ Ei).
+  - left. simpl. split; [reflexivity|]. rewrite (increase_done_prefix _ _ (liftK_no_increase ucalls)). unfold increase_done.
+    rewrite (aws_increase_not_done _ _ _ _ _ _ Ei) by discriminate. rewrite set_desired_ok_liftA, orb_false_r.
     destruct (existsb _ ac) eqn:E; [|reflexivity]. pose proof (aws_increase_setdesired _ _ _ _ _ _ Ei E). discriminate.
-  - left. simpl. split; [reflexivity|]. rewrite set_desired_ok_app, HK1, set_desired_ok_liftA. simpl.
+  - left. simpl. split; [reflexivity|]. rewrite (increase_done_prefix _ _ (liftK_no_increase ucalls)). unfold increase_done.
+    rewrite (aws_increase_not_done _ _ _ _ _ _ Ei) by discriminate. rewrite set_desired_ok_liftA, orb_false_r.
     destruct (existsb _ ac) eqn:E; [|reflexivity]. pose proof (aws_increase_setdesired _ _ _ _ _ _ Ei E). discriminate.
 Qed.
 
@@ -125,12 +259,12 @@ Lemma lock_outcome_prefix now dry pre post pfx calls : no_increase pfx ->
   lock_outcome now dry pre post calls -> lock_outcome now dry pre post (pfx ++ calls).
 Proof.
   intros Hp H. destruct (no_increase_set_desired _ Hp) as [H1 H2]. destruct H as [[Ha Hb]|[n [Ha Hb]]].
-  - left. rewrite set_desired_ok_app, H1, Hb. auto.
-  - right. exists n. split; [exact Ha|]. destruct Hb as [Hb|Hb]; [left; exact Hb | right; rewrite increase_accepted_app, Hb; apply orb_true_r].
+  - left. rewrite (increase_done_prefix _ _ Hp), Hb. auto.
+  - right. exists n. split; [exact Ha|]. destruct Hb as [Hb|Hb]; [left; exact Hb | right; rewrite (increase_done_prefix _ _ Hp); exact Hb].
 Qed.
 
 Lemma lock_outcome_quiet now dry pre calls : no_increase calls -> lock_outcome now dry pre pre calls.
-Proof. intros H. left. split; [reflexivity | apply no_increase_set_desired; exact H]. Qed.
+Proof. intros H. left. split; [reflexivity | apply no_increase_done; exact H]. Qed.
 
 (* ---------- scale_down_taint keeps the lock ---------- *)
 Lemma scale_down_taint_lock e o mn dry st unt want calls err st' :
@@ -187,8 +321,8 @@ Proof.
   destruct H as [[Ha Hb]|[n [Ha Hb]]].
   - rewrite Ha, Ht, optZ_eqb'_refl, Hb. reflexivity.
   - rewrite Ha. simpl. rewrite Z.eqb_refl. simpl.
-    assert (Hd : x_dry x || increase_accepted calls = true) by (destruct Hb as [->| ->]; [reflexivity | apply orb_true_r]).
-    rewrite Hd, orb_true_r. simpl. destruct (set_desired_ok calls); reflexivity.
+    assert (Hd : x_dry x || increase_accepted calls = true) by (destruct Hb as [->|Hb]; [reflexivity | rewrite (increase_done_accepted _ Hb); apply orb_true_r]).
+    rewrite Hd, orb_true_r. simpl. destruct (increase_done calls); reflexivity.
 Qed.
 
 Lemma match_both_empty {A B C} (l1 : list A) (l2 : list B) (u v : C) (P : C -> Prop) :
@@ -226,6 +360,47 @@ Proof.
   destruct (decide _ _ _ _ _ _ _) as [d0|d].
   { apply lock_outcome_checks with (l2 := g_lock (with_lock st1 (snd lkr))); [exact Hcool | exact Ht2 | apply scan_act_lock; apply lag_no_increase]. }
   apply lock_outcome_checks with (l2 := g_lock (with_lock st1 (snd lkr))); [exact Hcool | exact Ht2 | apply lock_outcome_quiet; apply lag_no_increase].
+Qed.
+
+(* ---------- C18, controller side ---------- *)
+Lemma lock_outcome_checks18 x calls post l2 :
+  l_time l2 = l_time (g_lock (x_st x)) ->
+  lock_outcome (e_now (x_env x)) (x_dry x) l2 (g_lock post) calls ->
+  check_C18_group x calls post = true.
+Proof.
+  intros Ht H. unfold check_C18_group. destruct H as [[Ha Hb]|[n [Ha Hb]]].
+  - rewrite Ha, Ht, optZ_eqb'_refl. reflexivity.
+  - destruct Hb as [->| ->]; [rewrite orb_true_r; reflexivity | apply orb_true_r].
+Qed.
+
+Theorem group_passes_C18 now gdry api g a nodes pods :
+  let x := ctx_of now gdry api g a nodes pods in
+  let r := scan_of now gdry api g a nodes pods in
+  check_C18_group x (r_calls r) (r_state r) = true.
+Proof.
+  intros x r. subst r. unfold scan_of. fold x.
+  assert (Hx : x_st x = match group_nodes (x_opts x) nodes with n :: _ => with_cache (gi_state g) (first_alloc n) | [] => gi_state g end) by reflexivity.
+  unfold scan_group.
+  change (e_dry (x_env x) || o_dry (x_opts x)) with (x_dry x).
+  set (gn := group_nodes (x_opts x) nodes) in *. set (gp := group_pods (x_opts x) pods).
+  rewrite <- Hx. set (st1 := x_st x) in *.
+  set (lkr := lock_check (g_lock st1) (e_now (x_env x)) (o_cool (x_opts x))).
+  assert (Hquiet1 : forall tags out ret, check_C18_group x (r_calls (mk tags [] out ret st1 a)) (r_state (mk tags [] out ret st1 a)) = true).
+  { intros. unfold check_C18_group. simpl. rewrite optZ_eqb'_refl. reflexivity. }
+  assert (Hquiet2 : forall tags out ret, check_C18_group x (r_calls (mk tags [] out ret (with_lock st1 (snd lkr)) a)) (r_state (mk tags [] out ret (with_lock st1 (snd lkr)) a)) = true).
+  { intros. unfold check_C18_group. simpl. subst lkr. rewrite lock_check_time, optZ_eqb'_refl. reflexivity. }
+  apply (match_both_empty gn gp _ _ (fun r => check_C18_group x (r_calls r) (r_state r) = true)); [apply Hquiet1|].
+  destruct (zlen gn <? x_min x); [apply Hquiet1|].
+  destruct (x_max x <? zlen gn); [apply Hquiet1|].
+  destruct (fst lkr) eqn:Elk; cbn [negb andb].
+  { destruct (calc_percent _ _ _ _ _); apply Hquiet2. }
+  assert (Ht2 : l_time (g_lock (with_lock st1 (snd lkr))) = l_time (g_lock (x_st x))) by (simpl; subst lkr; apply lock_check_time).
+  destruct (zlen (c_untainted (filter_nodes (x_dry x) st1 gn)) <? x_min x).
+  { apply lock_outcome_checks18 with (l2 := g_lock (with_lock st1 (snd lkr))); [exact Ht2 | apply scale_up_lock]. }
+  destruct (calc_percent _ _ _ _ _) as [cpuP memP|]; [|apply Hquiet2].
+  destruct (decide _ _ _ _ _ _ _) as [d0|d].
+  { apply lock_outcome_checks18 with (l2 := g_lock (with_lock st1 (snd lkr))); [exact Ht2 | apply scan_act_lock; apply lag_no_increase]. }
+  apply lock_outcome_checks18 with (l2 := g_lock (with_lock st1 (snd lkr))); [exact Ht2 | apply lock_outcome_quiet; apply lag_no_increase].
 Qed.
 
 (* ---------- C04 ---------- *)
